@@ -62,7 +62,7 @@ def run(tier, seed, replay=None):
     dt = torch.float64
     # ---- the C++ rank selection, exercised through round_this?  (not exported separately): compared through dmrg/solve below.
     for i in range(n):
-        which = rng.choice(["amen_solve", "amen_solve", "fast_matvec"])
+        which = rng.choice(["amen_solve", "amen_solve", "fast_matvec", "fast_matvec"]) if i >= 8 else "fast_matvec"
         sd = rng.randrange(1 << 30)
         if which == "amen_solve":
             A, b, N, kind = c12.gen_system(rng, torch, torchtt)
@@ -95,10 +95,16 @@ def run(tier, seed, replay=None):
             d = rng.choice([2, 3, 4, 5])
             N = [rng.choice([2, 3, 4, 5]) for _ in range(d)]; M = [rng.choice([2, 3, 4]) for _ in range(d)]
             A = solverkit.rand_ttm_float(rng, M, N, solverkit.ranks(rng, d, 3), dt); x = solverkit.rand_tt_float(rng, N, solverkit.ranks(rng, d, 3), dt)
+            scale = rng.choice([1.0, 1e-6, 1e-4, 1e-6, 1e-3, 1e3, 1e6])            # the contract is relative: it must not depend on the norm of the operands
+            if i < 8:                                                              # engineered: tiny operands with a loose tolerance, huge ones with a tight one
+                which_ = i % 4
+                scale, eps_forced = [(1e-6, 1e-3), (1e-5, 1e-2), (1e6, 1e-10), (1e-8, 1e-4)][which_]
+            x = x * scale
             eps = rng.choice([1e-12, 1e-10, 1e-8, 1e-6, 1e-4, 1e-2])
+            if i < 8: eps = eps_forced
             guess = solverkit.rand_tt_float(rng, M, solverkit.ranks(rng, d, 2), dt) if rng.random() < 0.4 else None
-            desc = {"routine": which, "N": N, "M": M, "eps": eps, "guess": guess is not None, "torch_seed": sd}
-            key = "fast_matvec"
+            desc = {"routine": which, "N": N, "M": M, "eps": eps, "guess": guess is not None, "torch_seed": sd, "scale": scale}
+            key = "fast_matvec" + ("" if scale == 1.0 else " scaled")
             ops = {"A": A, "x": x}
             if guess is not None: ops["guess"] = guess
             snaps = {k: history.Snap(v) for k, v in ops.items()}
